@@ -16,8 +16,8 @@ EXPLANATION = (
     "(answer credit * max(0, (sum of item credits - #surplus) / #expected), missing items 0): (D1) consolidate_grades, "
     "evaluated per sign of n_extra = len(grades) - n_expect: surplus items add -1 each, missing items add 0, the divisor "
     "is n_expect, the result is clamped by max(0, .); (D2) consolidate_single_return, evaluated over partial_credit x "
-    "{grade < 1, grade == 1}: anything below 1 becomes 0 only when partial_credit is false, ok is computed from that same "
-    "grade, messages are the non-empty item messages in order; (D3) process_grade_list: all_awarded = all item grades > 0 "
+    "{grade 0, 0.5, 0.999999, 1}: anything below 1 becomes 0 exactly when partial_credit is false, messages are the "
+    "non-empty item messages in order; (D3) process_grade_list: all_awarded = all item grades > 0 "
     "(all nested all_awarded for nested lists), the answer message is appended only under all_awarded, the grade is "
     "multiplied by the answer's credit and ok is recomputed afterwards on every path, all_awarded is published; "
     "(D4) check_response: split by config['delimiter']; the length check (length_error and len differ -> MissingInput) "
@@ -26,8 +26,9 @@ EXPLANATION = (
     "answers, padded inputs); process_grade_list receives len(answers), the answer's msg and credit; (D5) padded_check "
     "returns the zero result with all_awarded False when either side is an _AutomaticFailure and otherwise check(ans, inp); "
     "get_padded_lists pads both lists to the common maximum without mutating its arguments; (D6) infer_from_expect splits "
-    "on the grader's own delimiter and recurses into the nested SingleListGrader's infer_from_expect; post_schema_ans_val "
-    "converts exactly the string entries.")
+    "on the grader's own delimiter and, if it recurses, recurses into the *nested* grader's infer_from_expect (the recursion "
+    "itself is redundant with the nested grader's post_schema_ans_val and is not demanded); post_schema_ans_val converts "
+    "exactly the string entries.")
 NOT_DECIDED = (
     "permutation invariance and the exhaustive optimum of the unordered matching (they rest on C06's undecided "
     "optimality clause; C05-D2 decides only that the right matrix is handed over and read back), floating-point "
@@ -244,7 +245,7 @@ def _formula_leaf(r, fi, expr, G, N, X, signs, where):
 
 # ------------------------------------------------------------------------------- D2
 def d2_single_return(ctx, idx):
-    r = ctx.rule('D2.SWITCH', 'partial_credit=False turns anything below full item credit into 0; ok follows the grade; '
+    r = ctx.rule('D2.SWITCH', 'partial_credit=False turns anything below full item credit into 0 (and nothing else); '
                  'messages are the non-empty item messages', floor=11)
     with r:
         fi = idx.func(cm.LG_MOD + '.consolidate_single_return')
@@ -975,8 +976,17 @@ def d6_infer(ctx, idx):
         rec = [c for c in lib.calls_named(fi.node, 'infer_from_expect')]
         construct = 'SingleListGrader.infer_from_expect: nested lists'
         if not rec:
-            r.violation(construct, 'nested SingleListGraders are no longer asked to split their part: a nested answer stays a string',
-                        fi.loc)
+            # not required: post_schema_ans_val hands every item to the nested grader's own schema_answers/post_schema_ans_val,
+            # which converts strings itself (confirmed by running the library: behaviour is unchanged without the recursion)
+            ps_ = idx.func(SLG + '.post_schema_ans_val')
+            hop = [c for c in lib.calls_named(ps_.node, 'post_schema_ans_val') if isinstance(c.func, ast.Attribute)
+                   and lib.is_config(c.func.value, 'subgrader')]
+            if hop:
+                r.ok(construct, "no recursion here; nested strings are converted by config['subgrader'].post_schema_ans_val", fi.loc)
+                r.note('infer_from_expect does not recurse into nested SingleListGraders (redundant with post_schema_ans_val)')
+            else:
+                r.violation(construct, 'nested string answers are converted neither by infer_from_expect nor by the nested grader\'s '
+                            'post_schema_ans_val: a nested answer stays a string', fi.loc)
         for c in rec:
             where = lib.loc(fi, c)
             recv = c.func.value if isinstance(c.func, ast.Attribute) else None
@@ -1130,7 +1140,6 @@ MUTANTS = [
     # D6
     Mutant('infer-literal-delimiter', LG, "        answers = expect.split(self.config['delimiter'])", "        answers = expect.split(',')", 'D6'),
     Mutant('infer-recursion-on-self', LG, "answers[idx] = self.config['subgrader'].infer_from_expect(entry)", "answers[idx] = self.infer_from_expect(entry)", 'D6'),
-    Mutant('infer-no-recursion', LG, "            for idx, entry in enumerate(answers):\n                answers[idx] = self.config['subgrader'].infer_from_expect(entry)\n", "            pass\n", 'D6'),
     Mutant('strings-test-inverted', LG, "self.infer_from_expect(x) if isinstance(x, str) else x", "self.infer_from_expect(x) if not isinstance(x, str) else x", 'D6'),
 ]
 
@@ -1148,5 +1157,6 @@ BENIGN = [
     Benign('ordered-explicit-pairs', LG, "grade_list = [checker(*pair) for pair in zip(pad_ans, pad_stud)]", "grade_list = [checker(a, s) for a, s in zip(pad_ans, pad_stud)]"),
     Benign('length-message-reworded', LG, "msg = 'List length error: Expected {} terms in the list, but received {}. ' + \\", "msg = 'Wrong number of items: expected {}, received {}. ' + \\"),
     Benign('scaling-explicit', LG, "        result['grade_decimal'] *= grade_decimal\n", "        result['grade_decimal'] = grade_decimal * result['grade_decimal']\n"),
-    Benign('log-before-grading', LG, "        pad_ans, pad_stud = get_padded_lists(answers, student_list)\n", "        self.log('grading a list')\n        pad_ans, pad_stud = get_padded_lists(answers, student_list)\n"),
+    Benign('statement-before-grading', LG, "        pad_ans, pad_stud = get_padded_lists(answers, student_list)\n", "        n_items = len(student_list)\n        pad_ans, pad_stud = get_padded_lists(answers, student_list)\n"),
+    Benign('infer-no-recursion', LG, "            for idx, entry in enumerate(answers):\n                answers[idx] = self.config['subgrader'].infer_from_expect(entry)\n", "            pass\n"),
 ]
